@@ -20,7 +20,8 @@ REQUIRED = [f"ref_compared:{nn.label({'test': a, 'estim': b, 'bet': c})}" for a,
            ["equiv_compared", "inverse_checked", "entries_eq", "entries_boundary", "stratum:nondyadic_boundary_neighbourhood", "stratum:early_wins_then_zeros_to_census", "stratum:long_sample",
             "stratum:exact_hit_then_zero_then_nondyadic", "inverse_checked_with_null_mean_outside_0_u",
             "ref_compared:finite_N_given_as_a_numpy_integer", "predictability_of_the_estimator_values_probed", "ref_compared:fixed_bet_above_1_over_u",
-            "ref_compared:negative_betting_product_seen", "ref_compared:tuning_parameters_reassigned_after_construction"]
+            "ref_compared:negative_betting_product_seen", "ref_compared:tuning_parameters_reassigned_after_construction",
+            "stratum:total_passes_N_t_by_an_ulp_and_the_sample_goes_on"]
 ASSUMPTIONS = ["eta_j and lambda_j are taken from the real estimator/bet (their ranges are C13's business)",
                "boundary-index conventions of DESIGN.md C12: at the index where the total first exceeds N t either the "
                "product value or 0 is accepted; where mu_j is within the code's tolerances of 0 or u either the product "
@@ -45,6 +46,13 @@ def run_shard(spec, rec):
             if y and nn.in_domain(cfg, y):
                 rec.count("stratum:exact_hit_then_zero_then_nondyadic")
                 run_case({"kind": "ref", "cfg": cfg, "x": y, "stratum": "exact_hit_then_zero_then_nondyadic"}, rec)
+            continue
+        if r < 9 and i % 600 == r + 24:
+            cfg = nn.gen_cfg(rng, combo=nn.COMBOS[r], finite=True)
+            y = nn.gen_exceed_by_ulps(rng, cfg)
+            if y and nn.in_domain(cfg, y):
+                rec.count("stratum:total_passes_N_t_by_an_ulp_and_the_sample_goes_on")
+                run_case({"kind": "ref", "cfg": cfg, "x": y, "stratum": "total_passes_N_t_by_an_ulp"}, rec)
             continue
         if r < 9 and i % 600 == r:
             # a long sample (600-2500 draws, bounds up to 10): products that leave the floating-point range
